@@ -1,5 +1,5 @@
 // ======================================================================================
-// units/C18/loc_core.rs — falcon::il locations (lib/il/location.rs): the REAL type definitions
+// units/C18/loc_core.rs - falcon::il locations (lib/il/location.rs): the REAL type definitions
 // (extracted), the spec vocabulary over abstract locations (`Loc`, `loc_of`, `loc_valid`, `succ`,
 // `pred`, `all_locs`, ...) and the contracts of the location API.
 // To be included inside `pub mod il { use super::*; ... }` AFTER units/C15/il_core.rs;
